@@ -102,6 +102,10 @@ def judge(ctx, binp, item, r, st, label, profile):
         return ctx.known_or_violation('morphology-cost', text, replay)
     if slow and cls.get('octaves', 0) > 1000:
         return ctx.known_or_violation('turbulence-octaves', text, replay)
+    if big and cls.get('image_px', 0) * 4 > alloc_bound(W, H):
+        # a raster image is decoded at the size its header declares, before / regardless of the data that follows
+        st['cls_image'] = st.get('cls_image', 0) + 1
+        return ctx.known_or_violation('image-decode-unbounded', text, replay)
     if cls.get('filter_alloc_px', 0) > area:
         # only primitives that allocate their result with the (unclamped) region size count: blend, composite, flood,
         # image, tile, turbulence, lighting, displacement map, merge
@@ -201,6 +205,22 @@ def kernel_prims(rng, full=False):
         for no in ['0', '1', '3', '8']:
             P.append('<feTurbulence type="%s" baseFrequency="%s" numOctaves="%s" seed="%d" stitchTiles="%s"/>'
                      % (rng.choice(['turbulence', 'fractalNoise']), bf, no, rng.below(100), rng.choice(['stitch', 'noStitch'])))
+    # integer edge cases: seed over the i32 range, numOctaves 0..64 with and without stitching, large frequencies with stitching
+    for sd in ['-2147483648', '-2147483647', '-2147483646', '-1073741824', '-1', '0', '1', '2147483646', '2147483647', '-3e9', '3e9', '0.9', '-0.9']:
+        P.append('<feTurbulence baseFrequency="0.05" numOctaves="1" seed="%s" stitchTiles="%s"/>' % (sd, rng.choice(['stitch', 'noStitch'])))
+    for no in ['0', '1', '2', '8', '20', '31', '32', '40', '64']:
+        for stt in ('stitch', 'noStitch'):
+            P.append('<feTurbulence type="%s" baseFrequency="%s" numOctaves="%s" stitchTiles="%s"/>'
+                     % (rng.choice(['turbulence', 'fractalNoise']), rng.choice(['0.05', '0.5 0.01', '3']), no, stt))
+    for bf in ['1e3', '1e6', '1e9', '3e9', '1e15', '3e38', '1e9 0.01']:
+        P.append('<feTurbulence baseFrequency="%s" numOctaves="%s" stitchTiles="stitch"/>' % (bf, rng.choice(['1', '2', '5'])))
+    for o in ['1', '2', '9', '9 1', '1 9']:
+        n = [int(x) for x in (o + ' ' + o).split()[:2]]
+        for tx in sorted(set([0, n[0] - 1])):
+            P.append('<feConvolveMatrix order="%s" targetX="%d" targetY="%d" edgeMode="wrap" kernelMatrix="%s"/>' % (o, tx, n[1] - 1, ' '.join(['1'] * (n[0] * n[1]))))
+    for cnt in (1, 2, 3, 255, 256, 257, 1000):
+        P.append('<feComponentTransfer><feFuncR type="table" tableValues="%s"/><feFuncA type="discrete" tableValues="%s"/></feComponentTransfer>'
+                 % (' '.join(['0.5'] * cnt), ' '.join(['1', '0'] * (cnt // 2 + 1))))
     # extreme finite values for every scalar parameter (each call runs under the 3 s watchdog)
     for v in ['1e6', '1e8', '1e10', '3e12', '3e38', '-1e7', '-1e10', '-3e38']:
         P.append('<feColorMatrix type="hueRotate" values="%s"/>' % v)
@@ -239,6 +259,8 @@ PRIM_DOCS = [
     '<feDiffuseLighting surfaceScale="2"><fePointLight x="10" y="10" z="20"/></feDiffuseLighting>',
     '<feSpecularLighting surfaceScale="3" specularExponent="10"><feSpotLight x="50" y="50" z="30" pointsAtX="0" pointsAtY="0" pointsAtZ="0"/></feSpecularLighting>',
     '<feMorphology operator="dilate" radius="%(v)s"/>', '<feTurbulence baseFrequency="0.05" numOctaves="2"/>', '<feTile/>',
+    '<feTurbulence baseFrequency="0.05" seed="-2147483648"/>', '<feTurbulence baseFrequency="0.1" numOctaves="40" stitchTiles="stitch"/>',
+    '<feTurbulence baseFrequency="1e9" numOctaves="1" stitchTiles="stitch" seed="2147483647"/>',
     '<feMerge><feMergeNode in="SourceGraphic"/><feMergeNode in="SourceAlpha"/></feMerge>', '<feDropShadow dx="2" dy="2" stdDeviation="%(v)s"/>',
 ]
 
@@ -288,6 +310,104 @@ def nested_image_doc(depth, rng):
         href = 'data:image/svg+xml;base64,' + base64.b64encode(inner.encode()).decode()
         inner = level('<image x="0" y="0" width="8" height="8" xlink:href="%s"/>' % href)
     return inner
+
+
+def make_gif(screen, frame, offset=(0, 0), colors=4):
+    """a one-frame GIF89a: logical screen `screen`, image descriptor `frame` at `offset` (they may disagree), LZW data that
+    never grows past 3-bit codes (a clear code every two pixels)"""
+    import struct
+    sw, sh = screen
+    fw, fh = frame
+    out = bytearray(b'GIF89a' + struct.pack('<HHBBB', sw, sh, 0x80 | 0x01, 0, 0))       # global table of 4 entries
+    out += bytes([255, 0, 0, 0, 255, 0, 0, 0, 255, 255, 255, 0])
+    out += b'\x2c' + struct.pack('<HHHHB', offset[0], offset[1], fw, fh, 0)
+    codes = []
+    n = fw * fh
+    for i in range(n):
+        if i % 2 == 0:
+            codes.append(4)          # clear
+        codes.append((i * 7 + i // 3) % 4)
+    codes.append(5)                  # end of information
+    bits = 0
+    nb = 0
+    data = bytearray()
+    for c in codes:
+        bits |= c << nb
+        nb += 3
+        while nb >= 8:
+            data.append(bits & 255)
+            bits >>= 8
+            nb -= 8
+    if nb:
+        data.append(bits & 255)
+    out.append(2)                    # LZW minimum code size
+    for i in range(0, len(data), 255):
+        chunk = data[i:i + 255]
+        out.append(len(chunk))
+        out += chunk
+    out += b'\x00\x3b'
+    return bytes(out)
+
+
+def make_png(declared, actual, color_type=6):
+    """a PNG whose IHDR declares `declared` while the IDAT stream holds `actual` rows x columns of RGBA"""
+    import struct
+    import zlib
+
+    def chunk(t, d):
+        return struct.pack('>I', len(d)) + t + d + struct.pack('>I', zlib.crc32(t + d) & 0xffffffff)
+    aw, ah = actual
+    raw = b''.join(b'\x00' + bytes([(x * 40) % 256, (y * 60) % 256, 128, 255] * 1)[:4] * aw for y in range(ah) for x in [0])
+    return (b'\x89PNG\r\n\x1a\n' + chunk(b'IHDR', struct.pack('>IIBBBBB', declared[0], declared[1], 8, color_type, 0, 0, 0))
+            + chunk(b'IDAT', zlib.compress(raw)) + chunk(b'IEND', b''))
+
+
+def raster_header_cases(rng):
+    """documents with crafted raster images whose declared and actual sizes disagree, drawn directly, inside an isolated
+    group and inside a pattern; -> (doc, W, H, ts, node_mode)"""
+    import base64
+    imgs = []
+    for screen, frame, off in [((2, 2), (4, 4), (0, 0)), ((4, 4), (2, 2), (0, 0)), ((2, 2), (2, 2), (3, 3)), ((1, 1), (16, 16), (0, 0)), ((8, 8), (8, 8), (0, 0)),
+                               ((3, 5), (5, 3), (0, 0)), ((65535, 65535), (2, 2), (0, 0)), ((2, 2), (300, 300), (0, 0)), ((0, 0), (2, 2), (0, 0)), ((4, 4), (4, 4), (65535, 65535)),
+                               ((16, 1), (1, 16), (0, 0)), ((2, 2), (1000, 1), (0, 0))]:
+        imgs.append(('gif screen %dx%d frame %dx%d at %s' % (screen + frame + (off,)), 'image/gif', make_gif(screen, frame, off)))
+    for dec, act in [((4, 4), (2, 2)), ((2, 2), (4, 4)), ((65535, 65535), (1, 1)), ((4, 4), (4, 4)), ((1, 30000), (1, 2)), ((0, 4), (4, 4)), ((20000, 20000), (2, 2))]:
+        imgs.append(('png declared %dx%d data %dx%d' % (dec + act), 'image/png', make_png(dec, act)))
+    out = []
+    for name, mime, data in imgs:
+        href = 'data:%s;base64,%s' % (mime, base64.b64encode(data).decode())
+        im = '<image id="im" x="1" y="1" width="12" height="12" xlink:href="%s"/>' % href
+        for k, body in enumerate([im, '<g opacity="0.7" id="g">%s</g>' % im,
+                                  '<pattern id="p" width="8" height="8" patternUnits="userSpaceOnUse">%s</pattern><rect id="r" width="16" height="16" fill="url(#p)"/>' % im]):
+            doc = '<svg %s width="16" height="16">%s</svg>' % (rc.NS, body)
+            out.append((name, doc, 16, 16, (1, 0, 0, 1, 0, 0), k == 0))
+    return out
+
+
+def mask_layer_doc(rng):
+    """content that needs its own layer (opacity / clip-path / mask / filter / blend) inside mask, clip-path, pattern or
+    feImage content whose own region is huge: the nested layer must still be limited by the canvas"""
+    W, H = rng.choice([(20, 20), (1, 7), (16, 16), (8, 8), (40, 12)])
+    big = rng.choice([2000, 20000, 200000])
+    need = rng.choice(['opacity="0.5"', 'style="isolation:isolate"', 'style="mix-blend-mode:multiply"', 'filter="url(#blur)"', 'clip-path="url(#cp)"', 'mask="url(#m2)"'])
+    content = '<g %s><rect x="%d" y="%d" width="%d" height="%d" fill="white"/><circle cx="5" cy="5" r="%d" fill="#ccc"/></g>' % (need, -big, -big, 2 * big, 2 * big, big // 3)
+    defs = ('<filter id="blur" filterUnits="userSpaceOnUse" x="-10" y="-10" width="60" height="60"><feGaussianBlur stdDeviation="1"/></filter>'
+            '<clipPath id="cp"><rect x="%d" y="%d" width="%d" height="%d"/></clipPath>'
+            '<mask id="m2" maskUnits="userSpaceOnUse" x="%d" y="%d" width="%d" height="%d"><rect x="%d" y="%d" width="%d" height="%d" fill="white"/></mask>'
+            % (-big, -big, 2 * big, 2 * big, -big, -big, 2 * big, 2 * big, -big, -big, 2 * big, 2 * big))
+    host = rng.below(3)
+    scale = rng.choice([1, 1, 30])
+    if host == 0:
+        defs += '<mask id="m" maskUnits="userSpaceOnUse" x="%d" y="%d" width="%d" height="%d">%s</mask>' % (-big, -big, 2 * big, 2 * big, content)
+        use = '<rect width="%d" height="%d" fill="#2a2" mask="url(#m)"/>' % (W, H)
+    elif host == 1:
+        defs += '<mask id="m" maskUnits="objectBoundingBox" x="-50" y="-50" width="100" height="100">%s</mask>' % content
+        use = '<g mask="url(#m)"><rect width="%d" height="%d" fill="#22d"/></g>' % (W, H)
+    else:
+        defs += '<pattern id="pt" patternUnits="userSpaceOnUse" width="%d" height="%d">%s</pattern>' % (W, H, content)
+        use = '<rect width="%d" height="%d" fill="url(#pt)"/>' % (W, H)
+    doc = '<svg %s width="%d" height="%d">%s%s</svg>' % (rc.NS, W, H, defs, use)
+    return doc, W, H, (scale, 0, 0, scale, 0, 0)
 
 
 def gen_mutant(rng, path):
@@ -434,40 +554,87 @@ def run(ctx):
 
     # ------------------------------------------------------------------ K: every filter kernel on every small image size
     prims = kernel_prims(rng, full=not quick)
-    kitems = []
-    for (w, h) in KSIZES:
-        for pr in (rng.sample(prims, 48) if quick else prims):
-            kitems.append((w, h, rng.below(1 << 30) + 1, rng.choice([0.02, 0.5, 1, 1, 3]), pr))
-    kouts = ctx.rvh_batch(binp, 'c02-kernel', ["%d\t%d\t%d\t%s\t%s" % it for it in kitems], chunk=40)
-    kst = dict(calls=len(kitems), ok=0, skipped=0, kinds={}, max_ms=0)
-    nkb = 0
-    for it, o in zip(kitems, kouts):
-        try:
-            r = json.loads(o)
-        except (TypeError, ValueError):
-            r = {'error': str(o)[:100]}
-        if 'skip' in r:
-            kst['skipped'] += 1
-            continue
-        if r.get('ok'):
-            kst['ok'] += 1
-            kst['kinds'][r['kind']] = kst['kinds'].get(r['kind'], 0) + 1
-            kst['max_ms'] = max(kst['max_ms'], r['ms'])
-            ctx.note_case("kernel/%dx%d/%s/%s" % (it[0], it[1], it[3], it[4][:120]))
-            if r['ms'] > 1500 or r['len'] != it[0] * it[1] or (r['kind'] in ('arithmetic', 'morphology') and r['bad_alpha'] > 0):
-                nkb += 1
-                if nkb <= 3:
-                    ctx.violation("filter kernel %s on a %dx%d image: %s" % (r['kind'], it[0], it[1], json.dumps(r)),
-                                  dict(op='c02-kernel', size=[it[0], it[1]], seed=it[2], scale=it[3], primitive=it[4], result=r, doc=kernel_doc(it[4], it[0], it[1])))
-            continue
-        nkb += 1
-        if nkb <= 3:
+
+    def kernel_grid(kbin, profile, per_size):
+        kitems = []
+        for (w, h) in KSIZES:
+            for pr in (rng.sample(prims, per_size) if per_size else prims):
+                kitems.append((w, h, rng.below(1 << 30) + 1, rng.choice([0.02, 0.5, 1, 1, 3]), pr))
+        kouts = ctx.rvh_batch(kbin, 'c02-kernel', ["%d\t%d\t%d\t%s\t%s" % it for it in kitems], chunk=40)
+        kst = dict(calls=len(kitems), ok=0, skipped=0, failed=0, kinds={}, max_ms=0)
+        seen_at = set()
+        for it, o in zip(kitems, kouts):
+            try:
+                r = json.loads(o)
+            except (TypeError, ValueError):
+                r = {'error': str(o)[:100]}
+            if 'skip' in r:
+                kst['skipped'] += 1
+                continue
+            if r.get('ok'):
+                kst['ok'] += 1
+                kst['kinds'][r['kind']] = kst['kinds'].get(r['kind'], 0) + 1
+                kst['max_ms'] = max(kst['max_ms'], r['ms'])
+                ctx.note_case("kernel/%s/%dx%d/%s/%s" % (profile, it[0], it[1], it[3], it[4][:120]))
+                if r['ms'] > (1500 if profile == 'release' else 2500) or r['len'] != it[0] * it[1] or (r['kind'] in ('arithmetic', 'morphology') and r['bad_alpha'] > 0):
+                    kst['failed'] += 1
+                    if kst['failed'] <= 3:
+                        ctx.violation("filter kernel %s on a %dx%d image (%s profile): %s" % (r['kind'], it[0], it[1], profile, json.dumps(r)),
+                                      dict(op='c02-kernel', profile=profile, size=[it[0], it[1]], seed=it[2], scale=it[3], primitive=it[4], result=r,
+                                           doc=kernel_doc(it[4], it[0], it[1])))
+                continue
+            kst['failed'] += 1
+            key = str(r.get('at')) + str(r.get('panic'))[:40]      # one report per panic site
+            if key in seen_at or len(seen_at) >= 4:
+                continue
+            seen_at.add(key)
             what = ("panicked: %s at %s" % (r.get('panic'), r.get('at'))) if 'panic' in r else ("did not return: %s" % str(r)[:200])
-            ctx.violation("filter kernel call on a %dx%d image %s  [%s]" % (it[0], it[1], what, it[4][:200]),
-                          dict(op='c02-kernel', size=[it[0], it[1]], seed=it[2], scale=it[3], primitive=it[4], result=r, doc=kernel_doc(it[4], it[0], it[1]),
-                               replay="rvh c02-kernel, payload '<w>\\t<h>\\t<seed>\\t<scale>\\t<primitive xml>'"))
+            ctx.violation("filter kernel call on a %dx%d image (%s profile) %s  [%s]" % (it[0], it[1], profile, what, it[4][:200]),
+                          dict(op='c02-kernel', profile=profile, size=[it[0], it[1]], seed=it[2], scale=it[3], primitive=it[4], result=r,
+                               doc=kernel_doc(it[4], it[0], it[1]),
+                               replay="rvh c02-kernel (harness/target/%s), payload '<w>\\t<h>\\t<seed>\\t<scale>\\t<primitive xml>'" % profile))
+        return kst
+    dbin, dlog = ctx.harness('debug')
+    kst = kernel_grid(binp, 'release', 48 if quick else 0)
     ctx.cov['kernel_grid'] = kst
-    ctx.log("kernel grid: %s" % kst)
+    ctx.log("kernel grid (release): %s" % kst)
+    if dbin is not None:
+        kst = kernel_grid(dbin, 'debug', 40 if quick else 160)
+        ctx.cov['kernel_grid_debug'] = kst
+        ctx.log("kernel grid (debug): %s" % kst)
+
+    # ------------------------------------------------------------------ K: feTurbulence integer arithmetic (source-derived steps) on edge inputs
+    ctx.coq_build(['Model/Turb.v'])
+    seeds = [-2147483648, -2147483647, -2147483646, -1073741824, -2, -1, 0] + [-(rng.below(1 << 31)) for _ in range(20)]
+    st_cases = [(n, w, x, 1, 4097) for n in (1, 8, 20, 31, 32, 40, 64) for (w, x) in ((1, 4097), (3, 5000), (1000000, 4096 + 1000000), (0, 4096))]
+    body = ("Local Open Scope Z_scope.\nDefinition seeds : list Z := [%s].\nDefinition st : list (Z * Z * Z * Z * Z) := [%s].\n"
+            "Eval vm_compute in (bad_indices chk_turb_seed seeds).\n"
+            "Eval vm_compute in (bad_indices (fun c => let '(n, w, x, h, y) := c in chk_turb_stitch n w x h y) st).\n"
+            % ("; ".join("(%d)" % v for v in seeds), "; ".join("((%d), (%d), (%d), (%d), (%d))" % c for c in st_cases)))
+    rcode, out = ctx.coq_eval('k_turb', body, ['Model.Base', 'Model.RenderPrims', 'Model.Corr', 'Gen.LeafTurb', 'Model.Turb'], timeout=300)
+    lists = re.findall(r"=\s*\[(.*?)\]\s*:\s*list", out, re.S) if rcode == 0 else []
+    if len(lists) != 2:
+        ctx.violation("turbulence arithmetic: the source-derived step lists could not be evaluated", dict(log=out[-1500:]), found_input=False)
+    else:
+        def idx(b):
+            b = b.strip()
+            return [int(re.sub(r"%\w+", "", x).strip().strip('()')) for x in b.split(';')] if b else []
+        for i in idx(lists[0])[:1]:
+            doc = ('<svg %s width="20" height="20"><filter id="f"><feTurbulence baseFrequency="0.05" seed="%d"/></filter><rect width="20" height="20" filter="url(#f)"/></svg>'
+                   % (rc.NS, seeds[i]))
+            o = ctx.rvh_batch(dbin or binp, 'c02-render', ["-\t%s\t20\t20\t1,0,0,1,0,0\tlimit=20000" % doc], chunk=1)[0]
+            ctx.violation("feTurbulence seed=%d: the seed normalisation of turbulence::init leaves the i32 range (source-derived steps; %d of %d edge seeds); "
+                          "debug render: %s" % (seeds[i], len(idx(lists[0])), len(seeds), str(o)[:160]),
+                          dict(op='c02-render', profile='debug', doc=doc, canvas=[20, 20], root_transform=[1, 0, 0, 1, 0, 0], theorem='C02_turbulence_seed_in_range'))
+        for i in sorted(idx(lists[1]), key=lambda j: (st_cases[j][1], st_cases[j][0]))[:1]:
+            n = st_cases[i][0]
+            doc = ('<svg %s width="20" height="20"><filter id="f"><feTurbulence baseFrequency="0.05" numOctaves="%d" stitchTiles="stitch"/></filter>'
+                   '<rect width="20" height="20" filter="url(#f)"/></svg>' % (rc.NS, n))
+            o = ctx.rvh_batch(dbin or binp, 'c02-render', ["-\t%s\t20\t20\t1,0,0,1,0,0\tlimit=20000" % doc], chunk=1)[0]
+            ctx.violation("feTurbulence numOctaves=%d stitchTiles=stitch: the per-octave stitch update leaves the i32 range (source-derived steps, "
+                          "start width=%d wrap=%d); debug render: %s" % (n, st_cases[i][1], st_cases[i][2], str(o)[:160]),
+                          dict(op='c02-render', profile='debug', doc=doc, canvas=[20, 20], root_transform=[1, 0, 0, 1, 0, 0], theorem='C02_turbulence_stitch_in_range'))
+    ctx.cov['turbulence_arith_cases'] = len(seeds) + len(st_cases)
 
     # ------------------------------------------------------------------ K: layer-trace
     jobs = rc.trace_jobs_corpus(ctx, rng.sample(files, 350 if quick else len(files)), 2 if quick else 4)
@@ -486,7 +653,8 @@ def run(ctx):
     wdir = os.path.join(vlib.VERIF, 'corpus', 'witness')
     fixed = ['F06.svg', 'morph-radius.svg', 'offset-huge.svg', 'region-overflow.svg', 'turbulence-frequency.svg',
              'arith-k-overflow.svg', 'arith-k-huge-finite.svg', 'blur-sigma-huge.svg', 'turbulence-frequency-nonfinite.svg',
-             'f32bound-convolve-bias.svg', 'f32bound-colormatrix.svg', 'f32bound-transfer-table.svg', 'f32bound-lighting.svg']
+             'f32bound-convolve-bias.svg', 'f32bound-colormatrix.svg', 'f32bound-transfer-table.svg', 'f32bound-lighting.svg',
+             'turbulence-seed-min.svg', 'turbulence-stitch-octaves.svg']
     items = [('@' + os.path.join(wdir, f), 100, 100, (1, 0, 0, 1, 0, 0)) for f in fixed if os.path.exists(os.path.join(wdir, f))]
     dbin, dlog = ctx.harness('debug')
     for prof, b in (('release', binp), ('debug', dbin)):
@@ -599,6 +767,19 @@ def run(ctx):
         st = run_renders(ctx, dbin, titems[:150 if quick else 1500], "e2e-C02 thin filters", 'debug')
         stats['thin_filters_debug'] = st
         ctx.log("e2e-C02 thin filters (debug): %s" % st)
+    # layers needed by content inside mask / pattern content with huge regions (seeded change C02-13)
+    mitems2 = [mask_layer_doc(rng) for _ in range(120 if quick else 1200)]
+    st = run_renders(ctx, binp, mitems2, "e2e-C02 layers in mask / pattern content", 'release')
+    stats['mask_layers'] = st
+    ctx.log("e2e-C02 layers in mask / pattern content: %s" % st)
+    # crafted raster images whose declared and actual sizes disagree (seeded change C02-14), via render and render_node
+    rcases = raster_header_cases(rng)
+    for node in (False, True):
+        sel = [c for c in rcases if (c[5] or not node)]
+        st = run_renders(ctx, binp, [c[1:5] for c in sel], "e2e-C02 crafted raster headers" + (" (render_node)" if node else ""), 'release',
+                         extra='\tnode' if node else '')
+        stats['raster_headers' + ('_node' if node else '')] = st
+        ctx.log("e2e-C02 crafted raster headers%s: %s" % (' (render_node)' if node else '', st))
     # SVG-in-SVG data images 0..4 levels deep inside isolated groups with huge boxes, 8x8 canvas: every level's surfaces
     # are seen by the counting allocator
     nitems = [(nested_image_doc(d, rng), 8, 8, (1, 0, 0, 1, 0, 0)) for d in (0, 1, 1, 2, 2, 2, 3, 3, 3, 4)]
